@@ -260,7 +260,17 @@ func (engine *Engine) DialAsyncTimeout(network, addr string, timeout time.Durati
 			h(c, nil)
 		})
 	} else if timeout > 0 {
-		_ = c.setDeadline(&c.wTimer, ErrDialTimeout, time.Now().Add(timeout))
+		// The connection is registered already: the poller may have completed
+		// the connect (it takes the callback away under the mutex) before we
+		// get here. A dial timer armed after that would never be cleared and
+		// would close the established connection later.
+		c.mux.Lock()
+		if !c.closed && c.onConnected != nil && c.wTimer == nil {
+			c.wTimer = engine.AfterFunc(timeout, func() {
+				_ = c.closeWithError(ErrDialTimeout)
+			})
+		}
+		c.mux.Unlock()
 	}
 
 	return nil
